@@ -201,6 +201,18 @@ class C08Monitor(explore.Monitor):
       return [["ApplyUndoActions", st["last_undo"]]]
     if r < 0.5:
       return meta_edit(e, g)
+    if r < 0.65:
+      # a schema-changing user action followed, in the same bundle, by an action that fails: the
+      # rollback has to restore the internal schema of EVERY kind of schema action (two-way
+      # reference links and unlinks included)
+      kind = g.rng.choice(["reverse", "reverse", "add_col", "add_formula_col", "remove_col",
+                           "rename_col", "modify_type", "modify_formula", "to_formula", "to_data",
+                           "add_table", "remove_table", "rename_table", "summary"])
+      a = g.action(e, kind)
+      acts = a[1] if isinstance(a, tuple) else [a]
+      return acts + [g.rng.choice([["UpdateRecord", "NoSuchTable", 1, {"x": 1}],
+                                   ["RenameColumn", "A", "no_such_column", "z"],
+                                   ["RemoveRecord", "_grist_Tables_column", 98765]])]
     return g.bundle(e)
 
   def after(self, st, e, bundle, group, exc):
@@ -231,7 +243,8 @@ def main():
     common.SHIM_ASSUMPTION,
     "bounded: seeded random histories (seed documents of vlib/rtc/gen.py; action mix weighted "
     "towards schema actions, with half of the bundles direct record edits of _grist_Tables_column / "
-    "_grist_Tables, 20% of those followed by a failing action; 8% undo of the previous bundle); "
+    "_grist_Tables, 20% of those followed by a failing action; 15% a schema-changing user action "
+    "(incl. AddReverseColumn) followed by a failing action; 8% undo of the previous bundle); "
     "not a proof",
     "column order inside a table is not compared (the statement lists ids, types, formula flags, "
     "formulas and reverse columns)",
